@@ -1,12 +1,19 @@
 """C17 — elitist optimizers never lose their best solution: the pinned structurally-elitist set (from the
 regenerated skeletons) is run for real in both directions and the best cost of consecutive generations compared."""
 from __future__ import annotations
+from ..expected import load_expectations
 import json
 import math
 
 
 def monotone_problems(o):
     mm = o["job"]["task"].get("minmax", "min")
+    from .. import search
+    P = o["job"].get("cfg", {}).get("population_size")
+    if P is not None and P < search.fixture_scale(o["job"]["opt"])["population_size"] and any(len(g) != P for g in o["evolution"]):
+        # below the documented scale AND agents were dropped (a group count that does not divide so small a population: Henry Gas with 3 agents and 2 clusters keeps
+        # 2): the optimizer's own side condition on the population size is not met - outside C10's quantifier and, for the same reason, no observation here
+        return []
     best = [(min if mm == "min" else max)(a[1] for a in pop) for pop in o["evolution"] if pop]
     probs = []
     for k in range(len(best) - 1):
@@ -105,6 +112,14 @@ def run(ctx, info):
     edge_jobs = [j for h, j in edge if h] + (r.sample(cold, min(len(cold), 150 * boost)) if ctx.quick else cold)
     ctx.coverage["edge_configurations"] = {"available": len(edge), "run": len(edge_jobs)}
     jobs += edge_jobs
+    # objectives that are MEASUREMENTS (the same position evaluated again gives another value: noise, an evaluation budget, a dynamic penalty): an elitist scheme
+    # keeps the agent it kept - with the cost recorded when it was built - so the best recorded cost still never gets worse.  An elite that is re-evaluated every
+    # generation loses it.  (On the pinned tree this holds for all 70 elitist optimizers.)
+    cand = list(pinned) + list(observed)
+    hotn = [n for n in cand if n in changed or n in focus]
+    for nm in hotn * 6 + (r.sample(cand, min(len(cand), 12 * boost)) if ctx.quick else cand * 3):
+        jobs.append({"opt": nm, "cfg": {"max_cycles": 12, "fitness_error": None, "population_size": search.fixture_scale(nm)["population_size"]},
+                     "task": search.cont_task(obj="noisy:" + r.choice(["sphere", "rastrigin"]), minmax=r.choice(["min", "max"]), seed=r.randint(0, 10**6), dim=2, lo=-3.0, hi=3.0)})
     from .. import edgesuite
     elit = sorted(set(pinned) | set(observed))
     edgesuite.run(ctx, "monotone", names=(r.sample(elit, 8 * boost) if ctx.quick else elit), focus=list(changed) + list(focus), elitist=set(elit))
